@@ -107,7 +107,7 @@ pub fn gen_cancel_async_case(rng: &mut Rng) -> Vec<String> {
 /// C13: several solves on one solver (same or different problems, optionally with a transient
 /// cancellation somewhere in the history so that later solves run after a Cancelled outcome).
 pub fn gen_reuse_case(rng: &mut Rng, async_mode: bool) -> Vec<String> {
-    let kind = *rng.pick(&[Kind::General, Kind::Tight, Kind::Hints, Kind::Hints, Kind::Soft, Kind::Soft, Kind::Lazy]);
+    let kind = *rng.pick(&[Kind::General, Kind::Tight, Kind::Hints, Kind::Hints, Kind::Soft, Kind::Soft, Kind::Lazy, Kind::FalseThenTrue]);
     let g = gen::generate(rng, kind);
     let mut lines = g.u.to_lines();
     let vss: Vec<u32> = g.u.vsets.keys().copied().collect();
@@ -141,6 +141,14 @@ pub fn gen_reuse_case(rng: &mut Rng, async_mode: bool) -> Vec<String> {
     // half of the histories end with the generated (conflict-prone) main problem, so that it is solved on a cache
     // already filled by the smaller solves before it (candidates with known dependencies that were never encoded)
     if rng.chance(1, 2) { probs.rotate_left(1); }
+    // 1/3: a warm-up phase of 4-8 single-requirement solves in front, so that the dependencies of most solvables are
+    // cached when the later problems are solved (every candidate is then "cheaply available" without any hint)
+    if rng.chance(1, 3) {
+        let mut warm: Vec<Problem> = Vec::new();
+        for _ in 0..rng.range(4, 8) { let mut p = Problem::default(); p.reqs.push(Req::Single(*rng.pick(&vss))); warm.push(p); }
+        warm.extend(probs.drain(..));
+        probs = warm;
+    }
     for p in &probs { lines.push(p.to_line()); }
     let mut cfg = Config { render: false, ..Config::default() };
     if async_mode {
